@@ -89,6 +89,9 @@ pub fn build<C: BlsSignatureImpl + Clone>(lib: &Lib, c: &Value, rng: &mut ChaCha
     let pk = lib.sk::<C>(k).public_key();
     let msg = msg_of_len(lib.conc, "M", n);
     let mut ct = pk.sign_crypt(scheme_of(scheme0), &msg);
+    // the recipient uses the genuine ciphertext first (same thread): whatever the library remembers between
+    // calls is warm when the altered ciphertext arrives
+    let _ = (ct.is_valid(), ct.decrypt(&lib.sk::<C>(k)).is_some());
     let other_n = if n == 5 { 33 } else { 5 };
     let other = pk.sign_crypt(scheme_of(scheme0), msg_of_len(lib.conc, "M2", other_n));
     let ops = geta(c, "ops");
